@@ -329,7 +329,7 @@ def coq_model_expr(case):
 
 
 CLAIM = {
-    'text': "Theorems (Coq): for every pipeline of the modelled dual-mode operators and every item list, the per-key local machine emits over one lifetime exactly what the pipeline computes on a plain observable (plain_pipe, by structural induction over the pipeline: composition of list functions, so any depth); for EVERY pipeline of the grammar and every well-formed keyed trace (any keys, interleaving, reused slots) the slot-level machine emits during a key's lifetime the timed output of that local machine on the lifetime's items alone (master refinement). Both models are tied to the code: multiplexed run vs Mux model and plain run vs Plain model, on random typed pipelines (depth 1-6, nested tee_map, 3 joins) x 1-4 interleaved groups; model-free oracle: mux result per group == plain result. plain_pipe covers map, filter, flat_map, take, first, last, assert_, assert_1 and scan with or without a terminator (hence count, sum, mean, min, max, variance, stddev, to_list, batch, distinct_until_changed, clip, fill_none, identity, do_action, starmap); Timed plain semantics (ptimed_pipe: per-item and completion outputs as list functions, tee_map with zip / combine_latest / merge included, take/first excluded because they complete a plain observable early): C01_local_equals_plain_timed proves that the local machine emits step by step what it says, and the real plain runs are compared with it step by step (MCPlainT). tee_map combined with take/first inside, and formal.variance/stddev, are covered by the oracle and the mux model only.",
+    'text': "Theorems (Coq): for every pipeline of the modelled dual-mode operators and every item list, the per-key local machine emits over one lifetime exactly what the pipeline computes on a plain observable (plain_pipe, by structural induction over the pipeline: composition of list functions, so any depth); for EVERY pipeline of the grammar and every well-formed keyed trace (any keys, interleaving, reused slots) the slot-level machine emits during a key's lifetime the timed output of that local machine on the lifetime's items alone (master refinement). Both models are tied to the code: multiplexed run vs Mux model and plain run vs Plain model, on random typed pipelines (depth 1-6, nested tee_map, 3 joins) x 1-4 interleaved groups; model-free oracle: mux result per group == plain result. plain_pipe covers map, filter, flat_map, take, first, last, assert_, assert_1 and scan with or without a terminator (hence count, sum, mean, min, max, variance, stddev, to_list, batch, distinct_until_changed, clip, fill_none, identity, do_action, starmap); Timed plain semantics (ptimed_pipe: per-item and completion outputs as list functions, tee_map with zip / combine_latest / merge included; take/first modelled as ceasing to pass items, which is the plain behaviour exactly on the tee_safe fragment of the property, decided by PlainTimed.tsafe): C01_local_equals_plain_timed proves that the local machine emits step by step what it says, and on the tsafe fragment the real plain runs are compared with it step by step (MCPlainT). formal.variance/stddev and to_array are covered by the oracle only.",
     'note': 'Trusted: Coq kernel+VM; hand-written models (Mux/*.v, Plain.v) tied by correspondence; RxPY plain operators and synchronous delivery modelled not verified; preconditions of the property (typed accumulators, tee_safe, non-empty groups for first/last/mean) are generator constraints and the `fits` guard of plain_pipe.',
     'technique': 'Coq proof (forward-simulation refinement of a slot-level model by per-key local machines, list-level induction) + vm_compute correspondence against /repo + model-free oracle',
 }
